@@ -543,8 +543,12 @@ more:
 			ins = echs_evical_pull(&pp);
 
 			/* only allow PUBLISH requests for now */
-			if (UNLIKELY(ins.v != INSVERB_SCHE)) {
+			if (UNLIKELY(ins.v == INSVERB_UNK)) {
+				/* buffer's used up */
 				break;
+			} else if (UNLIKELY(ins.v != INSVERB_SCHE)) {
+				/* go on with what's left in the buffer */
+				continue;
 			} else if (UNLIKELY(ins.t == NULL)) {
 				continue;
 			} else if (UNLIKELY(!ins.t->oid)) {
@@ -601,8 +605,12 @@ more:
 			ins = echs_evical_pull(&pp);
 
 			/* only allow PUBLISH requests for now */
-			if (UNLIKELY(ins.v != INSVERB_SCHE)) {
+			if (UNLIKELY(ins.v == INSVERB_UNK)) {
+				/* buffer's used up */
 				break;
+			} else if (UNLIKELY(ins.v != INSVERB_SCHE)) {
+				/* go on with what's left in the buffer */
+				continue;
 			} else if (UNLIKELY(ins.t == NULL)) {
 				continue;
 			} else if (UNLIKELY(!ins.t->oid)) {
